@@ -105,7 +105,23 @@ func init() {
 		now := intrinsics["time.Now"](fr, nil)
 		return fr.i.clampDuration(fr.i.path.mkSub(timeNs(now), timeNs(a[0])))
 	})
-	reg("time.Sleep", func(fr *frame, a []value) value { return nil })
+	// Sleep(d): the clock is read at least d later from now on
+	reg("time.Sleep", func(fr *frame, a []value) value {
+		i := fr.i
+		if i.lastNow != nil {
+			p := i.path
+			d := a[0]
+			if c, ok := d.(int64); ok {
+				if c < 0 {
+					d = int64(0)
+				}
+			} else {
+				d = mkIte(p.mkIntCmp(">", d, int64(0)), d, int64(0))
+			}
+			i.lastNow = p.mkAdd(i.lastNow, d)
+		}
+		return nil
+	})
 	reg("time.Unix", func(fr *frame, a []value) value {
 		p := fr.i.path
 		e, _ := new(big.Int).SetString(unixEpochNs, 10)
